@@ -103,7 +103,12 @@ func checkC12inner(c *Case, s *Stats) error {
 		if i > 0 && i%block == 0 {
 			gap := int64(1)
 			if len(c.Ints) > 1 {
-				gap = 1 + (c.Ints[1+(i/block)%(len(c.Ints)-1)]&0x7fffffff)%100000
+				g := c.Ints[1+(i/block)%(len(c.Ints)-1)]
+				if g&1 == 1 {
+					gap = 1 + (g&0x7fffffff)%100000
+				} else {
+					gap = 1 + (g>>1)&(1<<39-1) // far beyond 32 bits
+				}
 			}
 			off += gap
 		}
